@@ -13,15 +13,16 @@ from symrun.values import SymBytes, fresh_bytes
 
 
 class BoxWorld:
-    def __init__(self, script=None):
+    def __init__(self, script=None, concrete=False):
         self.entries = []   # dict(ct=<full nonce||body>, key, nonce, pt)
         self.script = dict(script or {})
         self.n = 0
+        self.concrete = concrete   # never make ciphertext bytes symbolic (schedule-only explorations)
 
     def fresh(self, n):
         name = "box%d" % self.n
         self.n += 1
-        if core.active():
+        if core.active() and not self.concrete:
             b = fresh_bytes(name, n)
             core.eng().inputs[name] = b
             return b
@@ -35,7 +36,7 @@ class BoxWorld:
         return out[:n]
 
     def distinct(self, ct):
-        if not core.active():
+        if not core.active() or self.concrete:
             return
         e = core.eng()
         el = ct.e if isinstance(ct, SymBytes) else list(ct)
